@@ -296,6 +296,16 @@ def analyse_wrapper(mod, cfg, fn, op, ty, var, names):
             if want == got:
                 hit = (label, k)
                 break
+        if hit is None and getattr(op, 'tree', False):
+            # same function up to how the nest of selects is expressed (engine/dtree.py: equal decision trees over the
+            # comparison conditions, leaves re-canonicalised)
+            from . import dtree
+            for (label, k, want) in alts:
+                if op.ret == 'm' and not cfg.mask_regs:
+                    want = T.rep(want, W)
+                if T.width(want) == T.width(got) and dtree.same(got, T.canon(want)):
+                    hit = (label + ' (decision-tree equal)', k)
+                    break
         # lane dependence (C13), recorded for every wrapper
         dep = T.atoms_of(got)
         bad_dep = [a for a in dep if a[1] != i and not a[0] in ('s', 't')]
